@@ -350,6 +350,19 @@ def r3(ctx, fn, lp):
         okr = (isinstance(fin, tuple) and fin[0] == "idx" and isinstance(fin[2], tuple) and fin[2][0] == "bin" and fin[2][1] == "Sub"
                and e5.is_call(fin[2][2], "len", 1) is not None and e5.is_call(fin[2][2], "len", 1)[0] == fin[1] and fin[2][3] == ("lit", "1")) \
             or (a_last is not None and e5.is_call(a_last[0], "last", 1) is not None)
+    # the records are returned as they were filled: no reordering / dropping of entries between the walk and the return (the max-pool and
+    # tensor records are indexed by position in Feedback::backward); taking the last activated entry off to fold the block-level skip connection into it (`pop`, then `push`)
+    # is the only list operation the records may carry, and only on the activated record
+    tam = []
+    for p_ in fpaths:
+        v_ = p_.val if p_.exit is None else p_.exit[1]
+        cs_ = v_[1] if isinstance(v_, tuple) and v_ and v_[0] == "tup" else ()
+        for k_, comp_ in enumerate(cs_):
+            # `activated.pop()` ... `activated.push(last)` is how the pinned code folds the block-level skip connection into the last entry
+            tam += [(k_, nm_) for nm_ in e5.list_tampering(comp_) if not (nm_ == "pop" and k_ in (1, 4))]
+    ctx.check("R11.3", "records-returned-as-filled", not tam, "records-changed-before-return:" + ",".join(sorted({"%d:%s" % x_ for x_ in tam})), c.loc(fn),
+              "the five results are the records as the walk filled them",
+              "Feedback::forward applies %s to a record before returning it: position i no longer belongs to layer i" % sorted({x_[1] for x_ in tam}))
     ctx.check("R11.3", "reports-first-pre-and-final-output", bool(okr), "block-result:" + short(",".join(e5.show(x, 2) for x in comps), 80), c.loc(fn),
               "(unactivated[0], activated[last], .., unactivated, activated)")
     if not okr:
@@ -469,4 +482,4 @@ def run(ctx):
             ctx.guard("R11.3", "chaining", r3, ctx, r[0], lp)
     ctx.floor("R11.1", 10 + 2 + 5 + 1, "")
     ctx.floor("R11.2", 10, "")
-    ctx.floor("R11.3", 9, "")
+    ctx.floor("R11.3", 10, "")
